@@ -652,9 +652,10 @@ def oracle_endpoint(inp):
 def search(ctx, hints, broken):
   fails, n = [], 0
   for h in hints:
-    if "kind" in h and "input" in h and h["kind"] in set(KINDS) | {"endpoint"}:
+    k = "endpoint" if str(h.get("kind", "")).startswith("endpoint") else h.get("kind")   # endpoint cases are labelled endpoint:<view>:<mode>:<model>
+    if "input" in h and k in set(KINDS) | {"endpoint"}:
       n += 1
-      r = oracle(h["kind"], h["input"])
+      r = oracle(k, h["input"])
       if r:
         fails.append(r)
   MAXOPS[0] = ctx.n(12, 30)
